@@ -31,7 +31,7 @@ func DerivedFromCall(callees ...string) ExprPred {
 			if !ok || v.IsField() || v.Pkg() == nil || v.Parent() == v.Pkg().Scope() {
 				return true
 			}
-			defs := c.DefsOf(v)
+			defs := LiveDefs(c.DefsOf(v))
 			if len(defs) == 0 {
 				return true
 			}
